@@ -1777,6 +1777,26 @@ def make_ext_modules(I):
     E["functools"] = {"partial": bi("functools.partial", lambda I, st, a, k: iter([(st, Partial(a[0], a[1:], k))])),
                       "lru_cache": bi("functools.lru_cache", lambda I, st, a, k: iter([(st, a[0] if a else Opaque("lru_cache"))]))}
     E["operator"] = {}
+
+    def st_mean(I, st, a, k):
+        """statistics.mean of a concrete-length sequence of numbers: their sum / their number (A1: as a real);
+        an empty sequence raises StatisticsError (a ValueError)"""
+        if k or len(a) != 1:
+            raise Unsupported("statistics.mean arguments")
+        xs = I.iterate(a[0], st)
+        if not xs:
+            yield st, exc("ValueError", "mean requires at least one data point")
+            return
+        if not all(_plain_number(x) for x in xs):
+            raise Unsupported("statistics.mean of non-numbers")
+        tot = xs[0]
+        for x in xs[1:]:
+            tot = ops_add(tot, x)
+        npm = __import__("pyvc.npmodel", fromlist=["tofloat"])
+        tot = npm.tofloat(tot)
+        yield st, (tot / Fraction(len(xs)) if isinstance(tot, Fraction) else tot / z3.RealVal(len(xs)))
+
+    E["statistics"] = {"mean": bi("statistics.mean", st_mean)}
     E["warnings"] = {"warn": bi("warnings.warn", lambda I, st, a, k: iter([(st, None)]))}
 
     from . import npmodel, bytesmodel
